@@ -184,7 +184,7 @@ func cellFromID(id string) Cell {
 	return c
 }
 
-var ctxNames = map[string]string{"as": "assign", "def": "define", "opas": "op-assign", "ret": "return", "if": "if", "iface": "interface", "stmt": "statement", "dump": "dump"}
+var ctxNames = map[string]string{"as": "assign", "def": "define", "opas": "op-assign", "ret": "return", "if": "if", "ifn": "if-not", "ifna": "for-not-and", "iface": "interface", "stmt": "statement", "dump": "dump"}
 
 func symptom(nat, ya string, natOK, yaOK bool) string {
 	switch {
@@ -669,7 +669,7 @@ func init() {
 		ID:    "C02",
 		Level: "exploration",
 		Rule: "case = one generated file; evaluation = one cell (operator, operand kind(s), operand forms, result context, operand values) whose printed result is compared with the natively compiled program's; " +
-			"the cross product operator {+ - * / % & | ^ &^ << >> == != < <= > >= && || unary + - ^ ! ++ -- and the op-assign forms} x applicable kind x forms {variable, literal, typed and untyped named constant; not constant-constant} x context {assign, define, op-assign, return, if, interface} x boundary set is enumerated completely (quick: six to eight values per kind and 2 rapid-drawn operands per function group, thorough: the full sets of 15 to 35 values plus 8 rapid-drawn operands per function group; shift counts 0, 1, w-1, w, w+1, 200, the count kind's maximum and, for signed count kinds, -1 and the minimum), plus all numeric conversions, int->string, string<->[]byte, string<->[]rune; " +
+			"the cross product operator {+ - * / % & | ^ &^ << >> == != < <= > >= && || unary + - ^ ! ++ -- and the op-assign forms} x applicable kind x forms {variable, literal, typed and untyped named constant; not constant-constant} x context {assign, define, op-assign, return, if, interface, and for comparisons and logical operators the negated operation as condition of an if and as left operand of && in a for condition} x boundary set is enumerated completely (quick: six to eight values per kind and 2 rapid-drawn operands per function group, thorough: the full sets of 15 to 35 values plus 8 rapid-drawn operands per function group; shift counts 0, 1, w-1, w, w+1, 200, the count kind's maximum and, for signed count kinds, -1 and the minimum), plus all numeric conversions, int->string, string<->[]byte, string<->[]rune; " +
 			"non-trivial = the native result is a panic, or the integer result differs from the infinitely precise result (wrap, truncation, sign extension), or an operand is a boundary value (min, min+1, max-1, max, -1, neighbour of a power of two >= 16, NaN, Inf, -0, denormal, |x| >= 2^24-1 (float32) / 2^53-1 (float64), non-ASCII or empty string); distinct by cell id and operand indices",
 		Assumptions: []string{
 			"the installed Go toolchain (amd64: int, uint and uintptr are 64 bits wide) is the reference",
